@@ -39,7 +39,7 @@ pub fn check() -> Check {
                (2) Coverage-guided: a cargo-fuzz target (libFuzzer + AddressSanitizer, same debug/overflow checks) decoding its input into such a session, 16 independent processes seeded from VERIF_SEED and a committed seed corpus; the final corpus is replayed in the plain harness build. \
                (3) Stack depth: the library built with opt-level 0 is driven on a 96 KiB stack with texts of up to 300 000 line feeds, lines of thousands of tokens / clustered options / characters and histories of thousands of entries; a death is a violation. \
                Oracle inside (1) and (2): no panic/abort/sanitizer report, and after every byte the invariants behind every unchecked operation: valid <= buffer, cursor <= chars, editor bytes well-formed UTF-8, history used <= len and a sequence of NUL-terminated non-empty well-formed entries, navigation cursor on an entry start, every handler string/char sound. \
-               Non-trivial = the session reaches a rejected/filled command buffer, a history eviction, a recall after an eviction, a completion with < 2 bytes free, or a buffer of <= 1 byte; distinct by input bytes.",
+               Non-trivial = the session reaches a rejected/filled command buffer, a history eviction, a recall after an eviction, a completion with < 2 bytes free, or a buffer of <= 1 byte; distinct by input bytes. Typed-argument grid: nine argument slots of the derived session group x about 250 number spellings around every integer limit (signs, leading zeros, long digit runs, floats, non-digits), each line typed and submitted: a conversion may refuse, it may not panic or overflow.",
         assumptions: &[
             "memory safety is observed through precondition assertions, explicit invariants and ASan on x86-64; layout-dependent undefined behaviour that trips none of them is invisible",
             "if the nightly cargo-fuzz build is unavailable the check degrades to part (1) and says so in the evidence notes",
